@@ -105,6 +105,8 @@ def main(ctx):
     cases = ctx.path("cases.ndjson")
     ctx.tlc_model("StreamCases", "StreamCases_thorough.cfg" if thorough else "StreamCases_quick.cfg",
                   env={"VERIF_CASES": cases}, timeout=1500)
+    if thorough:     # five batches of 0/1 records: every arrival permutation of 5 (120) x parameters, appended to the same case file
+        ctx.tlc_model("StreamCases", "StreamCases_thorough5.cfg", env={"VERIF_CASES": cases}, timeout=1500)
     sched = ctx.path("sched.ndjson")
     ctx.tlc_model("Pipeline", "Pipeline_sched_thorough.cfg" if thorough else "Pipeline_sched.cfg",
                   env={"VERIF_CASES": sched}, timeout=1500, deadlock_check=True)
